@@ -27,7 +27,17 @@ class Discard(Exception):
     """The generated case is outside the space the property speaks about (not counted)."""
 
 
+_KNOWN_CACHE = {}
+
+
 def load_known(prop):
+    # read once in the main process (before the pool forks); children inherit the parsed list
+    if prop not in _KNOWN_CACHE:
+        _KNOWN_CACHE[prop] = _load_known(prop)
+    return _KNOWN_CACHE[prop]
+
+
+def _load_known(prop):
     out = []
     files = [KNOWN_FILE]
     d = os.path.join(VERIF, "known_findings.d")
@@ -44,7 +54,7 @@ def load_known(prop):
 
 def match_known(known, rule, sig):
     for k in known:
-        if k["rule"] == rule and re.search(k["sig"], sig or ""):
+        if (k["rule"] == rule or re.fullmatch(k["rule"], rule)) and re.search(k["sig"], sig or ""):
             return k
     return None
 
@@ -356,6 +366,7 @@ def run_check(check, tier, base_seed, jobs, runs=None, budget=None, ignore_known
     wall_cap = budget or (getattr(check, "WALL_CAP", {"quick": 150, "thorough": 3600})[tier])
     if hasattr(check, "warm"):
         check.warm()
+    load_known(check.ID)
     pool = Pool(lambda job: run_one(check, job), jobs=jobs, wall_limit=getattr(check, "RUN_WALL_LIMIT", 120))
     agg = {"runs": 0, "ok": 0, "violation": 0, "error": 0, "timeout": 0, "discard": 0, "known": {},
            "probes": {}, "faults": {}, "sim_s": 0.0, "steps": 0, "shapes": set(), "states": set(),
@@ -528,16 +539,17 @@ def _clip(obj, n=40):
     return obj
 
 
-def replay_file(check, path, jobs=1):
+def replay_file(check, path, jobs=1, ignore_known=False):
     from sim.pool import Pool
     with open(path) as f:
         rp = json.load(f)
     if hasattr(check, "warm"):
         check.warm()
+    load_known(check.ID)
     pool = Pool(lambda job: run_one(check, job), jobs=1)
     out = []
     pool.run([{"seed": rp["seed"], "replay": {"plan": rp["plan"], "tapes": rp["tapes"], "neutral": rp.get("neutral", [])},
-               "ignore_known": True, "want_log": True}],
+               "ignore_known": ignore_known, "want_log": True}],
              lambda res, job: out.append(res))
     pool.close()
     r = out[0]
